@@ -23,7 +23,7 @@ Definition tables_wf : bool :=
   str_eqb upper_and_new s_and && str_eqb upper_or_new s_or &&
   (* order of the steps in from_string / visit_Name *)
   zlist_eqb from_string_steps [1; 2; 3; 4; 5; 6] && zlist_eqb unescape_steps [1; 2] &&
-  wf_repl repl_table esc_prefix_kw && wf_kws kw_list.
+  wf_repl repl_table esc_prefix_kw && wf_kws kw_list && wf_prefix esc_prefix_kw kw_list.
 
 Example tables_wf_current : tables_wf = true.
 Proof. vm_compute. reflexivity. Qed.
